@@ -147,7 +147,7 @@ def h_positions(env):
             env.check("witness:pickle-keeps-name-and-number", p.name == member.name and p.value == member.value and p == member)
         ref = shapes.build_ref(cat)
         r = ref["M"].FromString(bytes(data))
-        env.check("oracle:reference-reads-same-numbers", sm.canon_equal(cat, "M", sm.canon_of_ref(cat, "M", r), exp))
+        env.check("witness:reference-reads-same-numbers", sm.canon_equal(cat, "M", sm.canon_of_ref(cat, "M", r), exp))
 
 
 def units(tier):
